@@ -42,8 +42,10 @@ func c04Entries(t *rapid.T, frame []byte) []string {
 		entries = append(entries, fmt.Sprintf("Unmarshal:%d", frame[0]>>4))
 	}
 	other := rapid.IntRange(0, 15).Draw(t, "othertype")
-	if rapid.Bool().Draw(t, "usenew") {
+	if k := rapid.IntRange(0, 3).Draw(t, "usenew"); k == 0 {
 		entries = append(entries, fmt.Sprintf("UnmarshalNew:%d", other))
+	} else if k == 1 && len(frame) > 0 {
+		entries = append(entries, fmt.Sprintf("UnmarshalUsed:%d", frame[0]>>4))
 	} else {
 		entries = append(entries, fmt.Sprintf("Unmarshal:%d", other))
 	}
